@@ -59,6 +59,15 @@ const detEvery = 97
 const setCap = 250000
 
 func eventDigest(c *Case, v *Violation, ri *RunInfo) string {
+	if simhook.Concurrent {
+		// goroutines of package jen's own run outside the simulator's control: only what does
+		// not depend on their interleaving is claimed to repeat
+		rule := ""
+		if v != nil {
+			rule = v.Rule
+		}
+		return digest(c.Recipe, c.Conc, c.Clone, c.Dict, rule)
+	}
 	return digest(c.Recipe, c.Conc, c.Clone, c.Dict, ri.Frozen, ri.FrozenConc, ri.Inter, ri.States, v, ri.Counters, ri.Key)
 }
 
@@ -143,6 +152,10 @@ func runWorker(prop Property, tier string, base uint64, from, to int, only map[i
 		if n > 0 {
 			ws.SitesHit = append(ws.SitesHit, id)
 		}
+	}
+	if simhook.ClockReads > 0 {
+		ws.Counters["simulated_clock_reads"] = simhook.ClockReads
+		ws.Counters["simulated_clock_jumps_injected"] = simhook.ClockJumps
 	}
 	ws.NumSites = simhook.NumSites
 	ws.Meta = simhook.Meta
